@@ -481,6 +481,14 @@ func (p *parent) handleWatchdog(t *task, r *childResult) {
 		} else {
 			p.run.Count("hangs", 1)
 			p.run.Count(fmt.Sprintf("outcome_surface%d_hang", t.Surface), 1)
+			// the child could not count the input it is stuck in
+			p.run.Eval(1)
+			p.run.Count(fmt.Sprintf("inputs_surface%d", t.Surface), 1)
+			p.mu.Lock()
+			p.grouped["class_"][fmt.Sprintf("surface%d_%s", t.Surface, r.last.Class)]++
+			p.grouped["op_"][fmt.Sprintf("surface%d_%s", t.Surface, r.last.Op)]++
+			p.mu.Unlock()
+			p.run.Nontrivial(fmt.Sprintf("surface%d|%s|%s|hang", t.Surface, r.last.Class, r.last.Op))
 		}
 		p.mu.Lock()
 		confirmed := p.sigConfirmed[sig]
